@@ -120,6 +120,37 @@ func (c *Ctx) ConcurrentReplay() {
 	if len(calls) == 0 {
 		return
 	}
+	// (a) sequentially, in two other orders (reversed, shuffled): a pure function of its arguments does not depend
+	//     on which calls came before it (hidden "last value" hints, pooled scratch state)
+	{
+		ord := make([]int, len(calls))
+		for i := range ord {
+			ord[i] = len(calls) - 1 - i
+		}
+		mism, fseq, fgot := 0, "", ""
+		for pass := 0; pass < 2; pass++ {
+			for _, k := range ord {
+				if got := resultBytes(Do(nil, calls[k].call)); string(got) != string(calls[k].res) {
+					if mism == 0 {
+						fseq, fgot = string(calls[k].res), string(got)
+					}
+					mism++
+				}
+			}
+			c.pureRng().Shuffle(len(ord), func(i, j int) { ord[i], ord[j] = ord[j], ord[i] })
+		}
+		cut := func(s string) string {
+			if len(s) > 1500 {
+				return s[:1500] + "..."
+			}
+			return s
+		}
+		c.Flush()
+		c.Hist([]Event{{"op": "ConcurrentReplay", "mode": "sequential, other call orders", "calls": len(calls), "workers": 1, "executions": 2 * len(calls),
+			"dropped_nondeterministic": len(c.pure) - len(calls) - skipped, "skipped_budget": skipped,
+			"mismatches": mism, "first": map[string]interface{}{"sequential": cut(fseq), "concurrent": cut(fgot)}}})
+	}
+	// (b) the same list from 8 goroutines at once
 	const workers = 8
 	type diff struct {
 		call      Event
@@ -159,7 +190,7 @@ func (c *Ctx) ConcurrentReplay() {
 		}
 		return s
 	}
-	e := Event{"op": "ConcurrentReplay", "calls": len(calls), "dropped_nondeterministic": len(c.pure) - len(calls) - skipped, "skipped_budget": skipped, "workers": workers, "executions": total,
+	e := Event{"op": "ConcurrentReplay", "mode": "8 goroutines", "calls": len(calls), "dropped_nondeterministic": len(c.pure) - len(calls) - skipped, "skipped_budget": skipped, "workers": workers, "executions": total,
 		"mismatches": len(diffs), "first": map[string]interface{}{"sequential": "", "concurrent": ""}}
 	if len(diffs) > 0 {
 		e["first"] = map[string]interface{}{"sequential": cut(diffs[0].seq), "concurrent": cut(diffs[0].conc)}
